@@ -4,7 +4,7 @@ from props.common import *  # noqa: F401,F403
 
 B_ = "ghedesigner.borehole_heat_exchangers"
 FUNCTIONS = [f"{B_}:MultipleUTube.u_tube_volumes", f"{B_}:CoaxialPipe.concentric_tube_volumes", f"{B_}:SingleUTube.to_single#identity",
-             f"{U}:sign", f"{U}:check_bracket", f"{U}:solve_root"]
+             f"{U}:sign", f"{U}:check_bracket", f"{U}:solve_root"] + equiv.EQUIV_FUNCS
 NATIVE_FUNCTIONS = [f"{B_}:GHEDesignerBoreholeWithMultiplePipes.equivalent_single_u_tube", f"{U}:solve_root"]
 NATIVE_CASES = {"quick": 40, "thorough": 1500}
 NATIVE_LIMIT_S = {"quick": 120, "thorough": 3000}
@@ -18,15 +18,22 @@ def lemmas():
 
 ASSUMPTIONS = [A_REAL, A_ENGINE, "A-BRENT: scipy.optimize.brentq returns a point within 4*(xtol + rtol*|r|) of a sign change of the objective (solve_root's contract)",
                "log as an uninterpreted function (only log(r_out/r_in) appears, symbolically equal on both sides)",
-               "equivalent_single_u_tube / match_effective_borehole_resistance are NOT under a discharged contract: their bodies construct pygfunction exchangers (external base classes) and drive two root "
-               "solves through closures that mutate them; they are covered by the bounded run-time contract only"]
-NOT_PROVED = ["volume preservation of the equivalent tube as built by equivalent_single_u_tube: proved for the formula r' = sqrt(V/(2 pi)) as a lemma over the leaf contracts (the radii "
-              "the lemma speaks of are the ones the code computes, but the code path itself is checked at run time only)",
+               "ASSUMED caller views of the pygfunction-facing methods of the preliminary tube (no body in the repository or body calls pygfunction): SingleUTube.__init__ stores its arguments and ends "
+               "coherent (R_fp = R_FP(r_in, r_out, k_pipe), delta-circuit built from grout.k and R_fp); calc_fluid_pipe_resistance recomputes R_fp from the pipe conductivity; "
+               "calc_effective_borehole_resistance reads the stored delta-circuit (ghosts g_rd_kg / g_rd_rfp name what it was last built from); update_thermal_resistances rebuilds it from k_g and R_fp "
+               "(taken from pygfunction's source); copy.deepcopy gives a fresh equal object graph; ln x > 0 for x > 1 (instantiated)",
+               "preconditions that are solve_root's own (residuals nonzero at the bracket ends) are stated as preconditions of the conversion functions"]
+NOT_PROVED = ["the coaxial composition CoaxialPipe.to_single (same two callees, list-valued pipe fields) is covered by the run-time contract only",
               "R_fp reproduced and R_b* within 0.1 %: pygfunction multipole numerics behind brentq - bounded run-time contract; R_b* clause is violated on the unchanged tree (known finding D16)"]
 EXPLANATION = ("The bulk quantities handed to the conversion are proved to be the geometric ones: double U-tube n pi r_in^2 and n pi (r_out^2 - r_in^2) with n = 2 nPipes legs, "
                "pipe resistance ln(r_out/r_in)/(n 2 pi k); coaxial: core plus annulus, both walls, outer-wall resistance. A lemma shows the equal-volume radii sqrt(V/(2 pi)) reproduce "
                "both volumes exactly with r_out' > r_in'. SingleUTube.to_single returns the object itself. solve_root (the root helper of both matching steps) is proved against A-BRENT: "
-               "bracketed root within tolerance, otherwise the bracket end on the side of the sign. The real conversion is exercised at run time: volumes to 1e-9, R_fp to 1e-4, "
+               "bracketed root within tolerance, otherwise the bracket end on the side of the sign. equivalent_single_u_tube is proved (body, with the two deep copies, the closure-driven pipe-conductivity "
+               "solve and the assumed pygfunction views) to build a tube with exactly the given fluid and pipe-wall volumes (2 pi r_in'^2 = V_f, 2 pi (r_out'^2 - r_in'^2) = V_p), the same flow, fluid, soil, "
+               "roughness and pipe capacity, on *copies* of the borehole and grout (frame obligation: the original exchanger is untouched; the copy's radius only grows), with R_fp the one of its final pipe "
+               "conductivity. MultipleUTube.to_single composes u_tube_volumes -> equivalent_single_u_tube -> match_effective_borehole_resistance: volumes per metre preserved. "
+               "match_effective_borehole_resistance's clause 'the returned tube's delta-circuit is the one of its grout conductivity' is REFUTED on the unchanged tree (known finding D16; with the two "
+               "missing update calls inserted it discharges). The real conversion is exercised at run time: volumes to 1e-9, R_fp to 1e-4, "
                "the original exchanger (radius, grout, pipe, R_b*) untouched, R_b* to 0.1 % - the last clause fails for every double-U / coaxial input (known finding D16: stale delta-circuit).")
 LEVEL_TEXT = ("Proof of the leaf quantities, the equal-volume lemma, the identity case and the root helper; the conversion itself (pygfunction objects, two root solves) is a bounded run-time "
               "contract - hence level 'other'.")
